@@ -120,6 +120,11 @@ func (eng) Cases(seed uint64, tier string) []core.CaseDesc {
 	for i := 0; i < 6*rep; i++ {
 		add(cfg{Kind: "reorder", PushMs: 1, NoSchema: i%2 == 1}, seed*77+uint64(i))
 	}
+	for i := 0; i < 4*rep; i++ {
+		// tight bursts with "instant" pushes; source changes while the link is down
+		add(cfg{Kind: "burst", PushMs: -1, NoSchema: i%2 == 1}, seed*79+uint64(i))
+		add(cfg{Kind: "downtime", PushMs: []int{1, 20, -1}[i%3], NoSchema: i%2 == 1, Shallow: i%4 == 3}, seed*83+uint64(i))
+	}
 	return cs
 }
 
@@ -203,14 +208,20 @@ func stabilize(p *rpcloop.Pair, cf cfg) string {
 	}
 	// >=3 'nothing to push' decisions after the last source change, bytes quiet
 	base := am.VerifHookHits()["srv.push.nodiff"]
-	deadline = time.Now().Add(10 * time.Second)
+	startDecisions := am.VerifHookHits()["srv.push.nodiff"] + am.VerifHookHits()["srv.push.computed"]
+	deadline = time.Now().Add(3 * time.Second)
 	lastBytes := p.Proxy.Bytes.Load()
 	quiet := 0
 	for {
 		if time.Now().After(deadline) {
+			if quiet >= 3 && am.VerifHookHits()["srv.push.nodiff"]+am.VerifHookHits()["srv.push.computed"] == startDecisions {
+				// the server takes no push decision at all any more and the wire
+				// is quiet: nothing will change without new input
+				return ""
+			}
 			return fmt.Sprintf("not stable: nodiff decisions %d, bytes %d", am.VerifHookHits()["srv.push.nodiff"]-base, p.Proxy.Bytes.Load())
 		}
-		time.Sleep(time.Duration(cf.PushMs+2) * time.Millisecond)
+		time.Sleep(time.Duration(max(cf.PushMs, 0)+2) * time.Millisecond)
 		b := p.Proxy.Bytes.Load()
 		if b == lastBytes {
 			quiet++
@@ -241,7 +252,11 @@ func (eng) Run(c core.CaseDesc, tier string) *core.CaseResult {
 	am.VerifHookCount("cli.update.accepted")
 	am.VerifHookCount("cli.update.rejected")
 	defer am.VerifHookClear()
-	p, err := rpcloop.NewPair(src, rpcloop.Opts{PushSet: true, PushInterval: time.Duration(cf.PushMs) * time.Millisecond, Tune: tune,
+	pushInt := time.Duration(cf.PushMs) * time.Millisecond
+	if cf.PushMs < 0 {
+		pushInt = time.Nanosecond // "instant" clocks
+	}
+	p, err := rpcloop.NewPair(src, rpcloop.Opts{PushSet: true, PushInterval: pushInt, Tune: tune,
 		Client: arpc.ClientOpts{NoSchema: cf.NoSchema, AllowedStates: am.S(cf.Allow), SkippedStates: am.S(cf.Skip),
 			SyncShallowClocks: cf.Shallow, SyncMutations: cf.Muts}})
 	if err != nil {
@@ -249,8 +264,15 @@ func (eng) Run(c core.CaseDesc, tier string) *core.CaseResult {
 		return res
 	}
 	defer p.Close()
-	if cf.Kind == "reorder" {
+	switch cf.Kind {
+	case "reorder":
 		runReorder(res, c, cf, r, src, tr, p)
+		return res
+	case "burst":
+		runBurst(res, c, cf, r, src, p)
+		return res
+	case "downtime":
+		runDowntime(res, c, cf, r, src, p)
 		return res
 	}
 	sig := cf.mode() + "/push=" + fmt.Sprint(cf.PushMs) + "ms/" + cf.Fault
@@ -461,6 +483,100 @@ func runReorder(res *core.CaseResult, c core.CaseDesc, cf cfg, r *rand.Rand, src
 			"hooks": am.VerifHookHits()})
 	}
 	res.Sample = map[string]any{"kind": "reorder", "push_overtook_reply": overtook}
+}
+
+// runBurst: tight bursts of source-local transitions with instant pushes
+// (overlapping pushes are skipped and must be compensated), then quiet.
+func runBurst(res *core.CaseResult, c core.CaseDesc, cf cfg, r *rand.Rand, src *am.Machine, p *rpcloop.Pair) {
+	for round := 0; round < 12; round++ {
+		n := 10 + r.IntN(40)
+		for i := 0; i < n; i++ {
+			st := []string{"A", "B", "C", "D"}[r.IntN(4)]
+			if r.IntN(2) == 0 {
+				src.Add1(st, nil)
+			} else {
+				src.Remove1(st, nil)
+			}
+		}
+		why := stabilize(p, cf)
+		res.Evals++
+		if why != "" {
+			res.Inconclusive = why
+			return
+		}
+		if d := compare(src, p.C, false); d != "" {
+			res.Violate("C09/diverged/burst/instant-push", fmt.Sprintf(
+				"after a burst of %d source transitions with PushInterval=1ns and quiescence the mirror differs: %s", n, d),
+				map[string]any{"config": cf, "round": round, "source": src.StringAll(), "mirror": p.C.NetMach.StringAll(), "hooks": am.VerifHookHits()})
+			return
+		}
+	}
+	res.Key("burst", cf.NoSchema, c.Seed)
+	res.Sample = map[string]any{"kind": "burst", "rounds": 12}
+}
+
+// runDowntime: the source changes while the link is down and is quiet
+// afterwards; the reconnect alone has to bring the mirror up to date.
+func runDowntime(res *core.CaseResult, c core.CaseDesc, cf cfg, r *rand.Rand, src *am.Machine, p *rpcloop.Pair) {
+	for _, op := range gen.RandHistory(r, []string{"A", "B", "C", "D"}, []string{"add", "remove"}, 6) {
+		rec.Apply(src, op)
+	}
+	if why := stabilize(p, cf); why != "" {
+		res.Inconclusive = why
+		return
+	}
+	// a subscriber on the mirror that the downtime change must wake
+	wantD := !src.Is1("D")
+	var waiter <-chan struct{}
+	if wantD {
+		waiter = p.C.NetMach.When1("D", nil)
+	} else {
+		waiter = p.C.NetMach.WhenNot1("D", nil)
+	}
+	p.Proxy.Refuse(true)
+	p.Proxy.Cut()
+	// wait until the client noticed
+	for i := 0; i < 2000 && p.C.Mach.Is1(ssrpc.ClientStates.Ready); i++ {
+		time.Sleep(time.Millisecond)
+	}
+	// activity changes while down
+	for _, st := range []string{"A", "C"} {
+		if src.Is1(st) {
+			src.Remove1(st, nil)
+		} else {
+			src.Add1(st, nil)
+		}
+	}
+	if wantD {
+		src.Add1("D", nil)
+	} else {
+		src.Remove1("D", nil)
+	}
+	<-src.WhenQueueEnds()
+	p.Proxy.Refuse(false)
+	why := stabilize(p, cf)
+	res.Evals++
+	res.Key("downtime", cf.PushMs, cf.NoSchema, cf.Shallow, c.Seed)
+	if why != "" {
+		if strings.HasPrefix(why, "client not Ready") {
+			res.Violate("C09/not-reconnected/downtime", "20s after the link came back the client is still not Ready: "+why, nil)
+		} else {
+			res.Inconclusive = why
+		}
+		return
+	}
+	info := map[string]any{"config": cf, "source": src.StringAll(), "mirror": p.C.NetMach.StringAll(), "mirror_active": p.C.NetMach.ActiveStates(nil)}
+	if d := compare(src, p.C, cf.Shallow); d != "" {
+		res.Violate("C09/diverged/after-reconnect", "the source changed while the link was down and has been quiet since; after the reconnect the mirror differs: "+d, info)
+		return
+	}
+	select {
+	case <-waiter:
+	case <-time.After(300 * time.Millisecond):
+		res.Violate("C09/waiter-not-woken/after-reconnect", "a When/WhenNot waiter on the mirror for a change that happened while the link was down is still blocked "+
+			"although the mirror's clock shows the change", info)
+	}
+	res.Sample = map[string]any{"kind": "downtime"}
 }
 
 func main() { core.Main(eng{}) }
